@@ -22,6 +22,7 @@ func drawOpts(rt *rapid.T) gen.Opts {
 	return gen.Opts{
 		MaxDepth:      rapid.IntRange(1, 5).Draw(rt, "maxdepth"),
 		SamePkg:       rapid.IntRange(0, 3).Draw(rt, "samepkg") == 0,
+		TargetsInConv: rapid.IntRange(0, 4).Draw(rt, "targets-in-conv") == 0,
 		FieldSettings: rapid.Bool().Draw(rt, "fieldsettings"),
 		Defects:       rapid.IntRange(0, 1).Draw(rt, "defects"),
 		Flags:         rapid.Bool().Draw(rt, "flags"),
